@@ -318,6 +318,6 @@ def regexRuleText (pattern : Bytes) (matchCase : Bool) : Bytes :=
     (which includes the invalid ones, for which Go answers `false`). Mask patterns: see group G. -/
 def regexPat (pattern : Bytes) (matchCase : Bool) (target : Bytes) : Option Bool :=
   if !isRegexPattern pattern || !Bytes.isAscii target then none
-  else (Re.parseRE (regexRuleText pattern matchCase)).map fun r => Re.search r target
+  else (Re.parseRE (regexRuleText pattern matchCase)).map fun r => Re.searchFast r target
 
 end UF
